@@ -210,6 +210,15 @@ func VH_mapset_Fresh() {
 	vCheckSetNoProbe(ks, sref, "Keys")
 	vCheckSetNoProbe(vs, sref, "Values")
 	vAssert(Keys[int, int](nil) != nil && Values[int, int](nil) != nil, "Keys/Values of a nil map are non-nil")
+	vAssert(Keys[int, struct{}](nil) != nil && Keys[int, bool](nil) != nil && Keys(map[int]struct{}{}) != nil, "Keys of nil/empty maps of any value type are non-nil")
+	sm := map[int]struct{}{}
+	for _, k := range sref {
+		sm[k] = struct{}{}
+	}
+	sk := Keys(sm)
+	vCheckSetNoProbe(sk, sref, "Keys of a map[T]struct{}")
+	sk.Add(vOrd("fresh5"))
+	vAssert(len(sm) == len(sref), "Keys of a map[T]struct{} does not alias it")
 	ks.Add(vOrd("fresh4"))
 	vAssert(len(m) == len(sref), "Keys does not alias the map")
 	r := Range(func(yield func(int) bool) {
